@@ -182,13 +182,13 @@ Definition model_op (op : nat) (na : list nat) (sc : list xval) (ts : list pt) (
       | 9 => Ok (fst (pt_freshen xval next t))
       | 10 => Ok (pt_map xval xabs (xabs d) t)
       | 11 => Ok (pt_map xval xneg (xneg d) t)
-      | 12 => Ok (pt_map xval xrelu (py_max (XF 0) d) t)
+      | 12 => Ok (pt_map xval xrelu (xrelu d) t)           (* new_tensor(default).relu().item() *)
       | 13 => Ok (pt_map xval (fun x => xmax x s) (py_max d s) t)
       | 14 => Ok (pt_map xval (fun x => xmin x s) (py_min d s) t)
       | 15 => Ok (pt_map xval (fun x => xadd x s) (xadd d s) t)
       | 16 => Ok (pt_map xval (fun x => xsub x s) (xsub d s) t)
       | 17 => Ok (pt_map xval (fun x => xmul x s) (xmul d s) t)
-      | 18 => if is0 s then Fail ZeroDivisionError else Ok (pt_map xval (fun x => xdiv x s) (xdiv d s) t)
+      | 18 => Ok (pt_map xval (fun x => xdiv x s) (xdiv d s) t)     (* new_tensor(default).div(other).item() *)
       | 19 => Ok (pt_map xval (fun x => xbool (xltb x s)) (xbool (xltb d s)) t)
       | 20 => Ok (pt_map xval (fun x => xbool (xleb x s)) (xbool (xleb d s)) t)
       | 21 => Ok (pt_map xval (fun x => xbool (xltb s x)) (xbool (xltb s d)) t)
@@ -207,9 +207,8 @@ Definition model_op (op : nat) (na : list nat) (sc : list xval) (ts : list pt) (
                    | 30 => pt_commutative xval eqb xadd (XF 0) (xadd d du) next t u
                    | 31 => pt_sub_like xval eqb xsub xneg xadd (XF 0) (xsub d du) next t u
                    | 32 => pt_commutative xval eqb xmul (XF 1) (xmul d du) next t u
-                   | 33 => if is0 du then Fail ZeroDivisionError
-                           else pt_sub_like xval eqb xdiv (fun x => xdiv (XF 1) x) xmul (XF 1) (xdiv d du) next t u
-                   | 34 => pt_commutative xval eqb xmax XNInf (py_max d du) next t u
+                   | 33 => pt_sub_like xval eqb xdiv (fun x => xdiv (XF 1) x) xmul (XF 1) (xdiv d du) next t u
+                   | 34 => pt_commutative xval eqb xmax XNInf (xmax d du) next t u     (* torch.maximum of the defaults *)
                    | 35 => pt_binary xval (fun a b => xbool (xltb a b)) (xbool (xltb d du)) next t u
                    | 36 => pt_binary xval (fun a b => xbool (xleb a b)) (xbool (xleb d du)) next t u
                    | 37 => pt_binary xval (fun a b => xbool (xltb b a)) (xbool (xltb du d)) next t u
